@@ -101,6 +101,56 @@ static int st_lop_pgno(struct vf_rng *r)
 	return s ? s->pgno : 0x100;
 }
 
+/* Coherent objects (EN 300 706 section 13): for most POP / GPOP pages of a station the pointer rows,
+ * the definition triplets and the invocations in X/26 packets of normal pages and inside other objects
+ * agree with each other, so that object invocations really resolve and nest (active -> adaptive -> passive),
+ * including invocations the standard forbids: of the same or a lower type, of the object itself, in cycles.
+ * An object is found like this (resolve_obj_address): invocation triplet address = 48 (POP) / 56 (GPOP)
+ * + pointer packet 0..3, mode 0x10 + type, data = group << 5 | half << 4 | S1 of the object page;
+ * pointer packet 1..4 triplet group * 3 + type, low or high 9 bits = index of the definition triplet,
+ * which has mode 0x14 + type, the same data and the same low two address bits. */
+struct sobj { int type, pp, g, h, idx, len; };
+#define MAXOBJ 6
+static struct { int coherent, n; struct sobj o[MAXOBJ]; } pobj[40 /* MAXSP */];
+static struct spage *cur_popp, *cur_gpopp;      /* object pages the normal page under construction links to */
+
+static void objects_build(struct vf_rng *r, int sp)
+{
+	int k, j, n = vf_range(r, 1, MAXOBJ);
+	pobj[sp].coherent = vf_chance(r, 4, 5);
+	pobj[sp].n = 0;
+	for (k = 0; k < n; k++) {
+		struct sobj *o = &pobj[sp].o[pobj[sp].n];
+		o->type = vf_range(r, 1, 3);
+		o->pp = vf_chance(r, 3, 4) ? (int)vf_below(r, 2) : (int)vf_below(r, 4);
+		o->g = (int)vf_below(r, 4);
+		o->h = (int)vf_below(r, 2);
+		o->idx = 26 + k * 44 + (int)vf_below(r, 20);           /* packets 5 ... 25, bodies do not overlap */
+		o->len = vf_range(r, 2, 20);
+		for (j = 0; j < pobj[sp].n; j++)
+			if (pobj[sp].o[j].pp == o->pp && pobj[sp].o[j].g == o->g && pobj[sp].o[j].type == o->type && pobj[sp].o[j].h == o->h) break;
+		if (j == pobj[sp].n) pobj[sp].n++;
+	}
+}
+
+/* invocation of object o of station page t (NULL: none) */
+static unsigned obj_invocation(struct vf_rng *r, struct spage *t, const struct sobj *o, int type_override)
+{
+	int s1 = t->nsub > 0 ? vf_range(r, 1, t->nsub) : 0;
+	int ty = type_override ? type_override : o->type;
+	return G_TRIP((t->role == R_GPOP ? 56 : 48) | (vf_below(r, 2) << 2) | (unsigned)o->pp, 0x10 + ty,
+		      ((unsigned)o->g << 5) | ((unsigned)o->h << 4) | (unsigned)s1);
+}
+
+static struct sobj *obj_pick(struct vf_rng *r, struct spage *t)
+{
+	int sp;
+	if (!t) return NULL;
+	sp = (int)(t - st.p);
+	if (!pobj[sp].coherent || !pobj[sp].n) return NULL;
+	return &pobj[sp].o[vf_below(r, (unsigned)pobj[sp].n)];
+}
+
 static int st_add(int pgno, int role, int nsub, unsigned cflags)
 {
 	int i;
@@ -164,6 +214,10 @@ static void station_build(struct vf_rng *r)
 	if (feat & F_TRIG) st_add(0x1E7, R_TRIG, 0, 0);
 	if (feat & F_DATA) { st_add(hex_page(r, st.mags[0]), R_DATA, vf_range(r, 0, 3), 0); st_add(st.mags[0] * 0x100 + 0xFF, R_FILL, 0, 0); }
 	st.cni_idx = (int)vf_below(r, 64);
+	memset(pobj, 0, sizeof pobj);
+	cur_popp = cur_gpopp = NULL;
+	for (i = 0; i < st.n; i++)
+		if (st.p[i].role == R_POP || st.p[i].role == R_GPOP) objects_build(r, i);
 }
 
 /* ---------------- row content ---------------- */
@@ -270,9 +324,14 @@ static void gen_x26(struct vf_rng *r, int mag, int have_pop, int have_drcs)
 	if (have_pop && vf_chance(r, 2, 3)) {
 		int k;
 		for (k = vf_range(r, 1, 3); k > 0 && i < n - 2; k--) {
+			struct spage *op = vf_chance(r, 1, 2) ? cur_popp : cur_gpopp;
+			struct sobj *o = obj_pick(r, op);
 			if (vf_chance(r, 1, 3)) t[i++] = G_TRIP(40 + vf_below(r, 24), 0x10, vf_below(r, 80));  /* origin modifier */
-			/* invocation: address 48..55 POP, 56..63 GPOP; data = 7 bits */
-			t[i++] = G_TRIP((vf_chance(r, 1, 2) ? 48 : 56) + vf_below(r, 8), 0x11 + vf_below(r, 3), vf_below(r, 128));
+			if (o && vf_chance(r, 1, 4)) t[i++] = G_TRIP(40 + vf_range(r, 1, 23), 0x04, vf_below(r, 40));
+			if (o && vf_chance(r, 4, 5))
+				t[i++] = obj_invocation(r, op, o, vf_chance(r, 1, 10) ? vf_range(r, 1, 3) : 0);
+			else    /* invocation: address 48..55 POP, 56..63 GPOP; data = 7 bits */
+				t[i++] = G_TRIP((vf_chance(r, 1, 2) ? 48 : 56) + vf_below(r, 8), 0x11 + vf_below(r, 3), vf_below(r, 128));
 		}
 	}
 	if (vf_chance(r, 1, 3) && n >= 26) {
@@ -321,6 +380,8 @@ static void gen_x27(struct vf_rng *r, int mag)
 			for (i = 0; i < 6; i++) {
 				static const int roles[4] = { R_GPOP, R_POP, R_GDRCS, R_DRCS };
 				struct spage *s = st_find_role(r, roles[i & 3]);
+				if ((i & 3) == 0 && cur_gpopp && vf_chance(r, 3, 4)) s = cur_gpopp;
+				if ((i & 3) == 1 && cur_popp && vf_chance(r, 3, 4)) s = cur_popp;
 				if (s && vf_chance(r, 3, 4)) {
 					unsigned pg = (unsigned)s->pgno;
 					t[i * 2] = (unsigned)(i & 3) | ((pg & 15) << 7) | ((((pg >> 8) & 7) ^ ((unsigned)mag & 7)) << 12) | (((pg >> 4) & 7) << 15);
@@ -411,6 +472,8 @@ static void gen_lop_body(struct vf_rng *r, struct spage *s)
 	int mag = (s->pgno >> 8) & 7, row, style = (int)vf_below(r, 8);
 	if (!mag) mag = 8;
 	if (style > 3) style = 0;
+	cur_popp = st_find_role(r, R_POP);
+	cur_gpopp = st_find_role(r, R_GPOP);
 	for (row = 1; row <= 25; row++) {
 		if (row == 24 && !((feat & F_FLOF) && vf_chance(r, 1, 2))) continue;
 		if (row == 25 && !vf_chance(r, 1, 10)) continue;
@@ -579,13 +642,81 @@ static void gen_nibble_page(struct vf_rng *r, struct spage *s)
 	}
 }
 
-static void gen_pop_body(struct vf_rng *r, struct spage *s)
+/* body of a coherent object: what objects really contain, and invocations of the other objects of the
+   page (or of the global object page), whatever their type, and of itself */
+static int obj_body(struct vf_rng *r, struct spage *s, const struct sobj *self, unsigned *t, int max)
+{
+	int n = 0, sp = (int)(s - st.p);
+	static const uint8_t cm[] = { 0x00, 0x01, 0x02, 0x03, 0x07, 0x09, 0x09, 0x09, 0x0B, 0x0C, 0x0D, 0x0E, 0x0F, 0x10, 0x12, 0x1F };
+	while (n < max && n < self->len) {
+		unsigned k = vf_below(r, 12);
+		if (k < 2) t[n++] = G_TRIP(40 + vf_below(r, 24), vf_chance(r, 1, 2) ? 0x04 : 0x01, vf_below(r, 128));      /* active position / row colour */
+		else if (k < 8) t[n++] = G_TRIP(vf_below(r, 40), cm[vf_below(r, sizeof cm)], vf_chance(r, 1, 2) ? (unsigned)vf_range(r, 0x20, 0x7F) : vf_below(r, 128));
+		else if (k < 11 && n + 2 < max) {
+			struct spage *tp = s;
+			const struct sobj *o;
+			unsigned w = vf_below(r, 10);
+			if (w == 0 && s->role == R_POP) { struct spage *g = st_find_role(r, R_GPOP); if (obj_pick(r, g)) tp = g; }
+			o = (w < 3) ? self : &pobj[(int)(tp - st.p)].o[vf_below(r, (unsigned)pobj[(int)(tp - st.p)].n)];
+			if (tp != s) o = obj_pick(r, tp);
+			if (vf_chance(r, 1, 3)) t[n++] = G_TRIP(40 + vf_below(r, 24), 0x10, vf_below(r, 72));
+			t[n++] = obj_invocation(r, tp, o, 0);
+		} else t[n++] = rand_triplet(r);
+	}
+	(void)sp;
+	if (n < max && vf_chance(r, 2, 3)) t[n++] = G_TRIP(63, 0x1F, 0x7F);
+	return n;
+}
+
+static void gen_pop_body_coherent(struct vf_rng *r, struct spage *s, int sub)
+{
+	struct g_pkt p;
+	unsigned trip[23 * 13], t[13];
+	int mag = (s->pgno >> 8) & 7, sp = (int)(s - st.p), row, i, k, need34 = 0;
+	unsigned ptr[4][12][2];
+	if (!mag) mag = 8;
+	for (row = 0; row < 4; row++) for (i = 0; i < 12; i++) { ptr[row][i][0] = vf_chance(r, 7, 8) ? 511 : vf_below(r, 512); ptr[row][i][1] = vf_chance(r, 7, 8) ? 511 : vf_below(r, 512); }
+	for (i = 0; i < 23 * 13; i++) trip[i] = vf_chance(r, 1, 2) ? G_TRIP(63, 0x1F, 0x7F) : rand_triplet(r);
+	for (k = 0; k < pobj[sp].n; k++) {
+		const struct sobj *o = &pobj[sp].o[k];
+		ptr[o->pp][o->g * 3 + o->type - 1][o->h] = (unsigned)o->idx;
+		if (o->pp >= 2) need34 = 1;
+		trip[o->idx] = G_TRIP(40 | (vf_below(r, 6) << 2) | (unsigned)o->pp, 0x14 + o->type,
+				      ((unsigned)o->g << 5) | ((unsigned)o->h << 4) | ((unsigned)sub & 15));
+		obj_body(r, s, o, trip + o->idx + 1, 23 * 13 - o->idx - 1 < 40 ? 23 * 13 - o->idx - 1 : 40);
+	}
+	for (row = 1; row <= 4; row++) {
+		if (row > 2 && !need34 && vf_chance(r, 1, 2)) continue;
+		if (row > 2 && !need34) {               /* packets 3, 4 as data rows */
+			g_trip_row(&p, mag, row, (int)vf_below(r, 8) * 2, trip + (row - 3) * 13);
+			tq_push(r, &p);
+			continue;
+		}
+		t[0] = rand_triplet(r);
+		for (i = 0; i < 12; i++) t[i + 1] = ptr[row - 1][i][0] | ptr[row - 1][i][1] << 9;
+		g_trip_row(&p, mag, row, 1 + 2 * (int)vf_below(r, 8), t);
+		tq_push(r, &p);
+	}
+	for (row = 5; row <= 25; row++) {
+		g_trip_row(&p, mag, row, (int)vf_below(r, 16), trip + (row - 3) * 13);
+		tq_push(r, &p);
+	}
+	if (vf_chance(r, 1, 6)) {
+		for (i = 0; i < 13; i++) t[i] = rand_triplet(r);
+		g_trip_row(&p, mag, 26, (int)vf_below(r, 16), t);
+		tq_push(r, &p);
+	}
+	if (vf_chance(r, 1, 3)) gen_x28_m29(r, mag, 28, s->role);
+}
+
+static void gen_pop_body(struct vf_rng *r, struct spage *s, int sub)
 {
 	struct g_pkt p;
 	unsigned t[13];
 	int mag = (s->pgno >> 8) & 7, row, i, d;
 	/* object definitions at a few known triplet indices, referenced by the pointer rows */
 	int defs[6], ndefs = vf_range(r, 1, 6);
+	if (pobj[(int)(s - st.p)].coherent && pobj[(int)(s - st.p)].n) { gen_pop_body_coherent(r, s, sub); return; }
 	if (!mag) mag = 8;
 	for (i = 0; i < ndefs; i++) defs[i] = vf_chance(r, 1, 8) ? vf_range(r, 0, 511) : vf_range(r, 0, 300);
 	for (row = 1; row <= 4; row++) {
@@ -713,7 +844,7 @@ static void gen_page(struct vf_rng *r, struct spage *s)
 	switch (s->role) {
 	case R_LOP: gen_lop_body(r, s); break;
 	case R_BTT: case R_AIT: case R_MPT: case R_MPTEX: case R_MOT: case R_MIP: gen_nibble_page(r, s); break;
-	case R_GPOP: case R_POP: gen_pop_body(r, s); break;
+	case R_GPOP: case R_POP: gen_pop_body(r, s, sub); break;
 	case R_GDRCS: case R_DRCS: gen_drcs_body(r, s); break;
 	case R_TRIG: gen_trig_body(r, s); break;
 	case R_DATA: gen_data_body(r, s); break;
